@@ -1,9 +1,13 @@
 (* Correspondence check for C02: needles appended by the real Needle.Append to a
    backend.DiskFile after a prefix (super block), then read back with Needle.ReadData, scanned
-   with ScanVolumeFileFrom, and read again after single-bit flips. *)
+   with ScanVolumeFileFrom (whole and truncated), read again after byte flips, and copied by
+   a scan (the way Volume.Compact does) from the undamaged and from a damaged file; plus
+   hand-framed records with arbitrary bodies (a foreign / damaged writer).
+   The checksum is the Gallina [crc32c] of model/NeedleCrc.v; every CRC value Go computed for
+   a byte string of the case is compared with it. *)
 From Coq Require Import List NArith ZArith Bool.
 From Coq Require Export Uint63.   (* exported: cases.v uses %uint63 literals *)
-From SW Require Export base.Verdict model.Needle.
+From SW Require Export base.Verdict model.Needle model.NeedleCrc.
 Import ListNotations.
 Local Open Scope N_scope.
 
@@ -19,35 +23,64 @@ Fixpoint unchunk (fuel : nat) (x : Uint63.int) (acc : list N) : list N :=
   end.
 Definition unpack (cs : list Uint63.int) : list N := flat_map (fun c => unchunk 8 c []) cs.
 
-(* one bit flip: record index, absolute byte position in the file, xor mask, the raw CRC Go
+(* one byte flip: record index, absolute byte position in the file, xor mask, the raw CRC Go
    computed over the data it decoded from the altered record (0 if it did not get that far),
    and the status class ReadData returned *)
 Record flip := { f_rec : N; f_pos : N; f_mask : N; f_crc : N; f_status : N }.
+
+(* a scan-based copy of the file (with one byte xor-ed first; mask 0 = undamaged file): every
+   needle ScanVolumeFileFrom visits is appended to a fresh file that starts with [r_npre]
+   (what VolumeFileScanner4Vacuum.VisitNeedle does, without its needle-map/TTL filters - or
+   the real Volume.Compact + CommitCompact when [r_npre] is the bumped super block) *)
+Record recopy := {
+  r_rec : N; r_pos : N; r_mask : N;
+  r_npre : list N;
+  r_file : list N;                   (* the copy *)
+  r_index : list (N * N);            (* per visit: (new offset, n.Size) as put into the new index *)
+  r_reads : list (dneedle * N)       (* ReadData of every index entry in the copy *)
+}.
+
+(* the scan of the file truncated to [t_len] bytes *)
+Record tscan := { t_len : N; t_visits : list (dneedle * N) }.
+
+(* ReadData(offset, size) on the file as it is *)
+Record rawread := { w_off : N; w_size : N; w_res : dneedle * N }.
 
 Record case := {
   c_version : N;
   c_prefix : list N;                 (* bytes in the file before the first Append *)
   c_needles : list needle;           (* appended in this order *)
-  c_crcs : list N;                   (* oracle: NewCRC(data) of each needle, raw *)
-  c_crc_empty : N;                   (* oracle: NewCRC(nil) *)
-  c_crc_extra : list (list N * N);   (* oracle: NewCRC of any other byte string Go decoded as data *)
+  c_crcs : list N;                   (* Go's NewCRC(data) of each needle, raw *)
+  c_crc_empty : N;                   (* Go's NewCRC(nil) *)
+  c_crc_extra : list (list N * N);   (* Go's NewCRC of any other byte string it decoded as data *)
   c_flips : list flip;
   c_do_scan : bool;                  (* false for files holding an out-of-contract record (not record-aligned) *)
+  c_scan_off : N;                    (* where the scans start (the end of the super block) *)
+  c_recopies : list recopy;
+  c_tscans : list tscan;
+  c_raws : list rawread;
+  i_scan_panicked : bool;            (* the full scan ended in a run-time panic *)
   i_file : list N;                   (* file content after the appends *)
   i_appends : list (N * N * N);      (* Append results: offset, size (= DataSize), actualSize *)
   i_reads : list (dneedle * N);      (* ReadData(offset_i, n_i.Size): needle fields, status code *)
   i_scan : list (dneedle * N)        (* ScanVolumeFileFrom(prefix length): visited needle, offset *)
 }.
 
-(* ---------- oracle table ---------- *)
-Fixpoint lookup (tbl : list (list N * N)) (dflt : N) (d : list N) : N :=
-  match tbl with
-  | [] => dflt
-  | (k, c) :: tbl' => if bytes_eqb k d then c else lookup tbl' dflt d
+(* ---------- the checksum ---------- *)
+Definition crc := crc32c.
+
+Fixpoint all2 {A B} (f : A -> B -> bool) (l1 : list A) (l2 : list B) : bool :=
+  match l1, l2 with
+  | [], [] => true
+  | x :: l1', y :: l2' => f x y && all2 f l1' l2'
+  | _, _ => false
   end.
 
-Definition crc_of (c : case) : list N -> N :=
-  lookup (([], c_crc_empty c) :: combine (map data (c_needles c)) (c_crcs c) ++ c_crc_extra c) 0.
+(* crc32c against every value the Go library produced in this case *)
+Definition crc_ok (c : case) : bool :=
+  (crc [] =? c_crc_empty c)
+  && all2 (fun n k => crc (data n) =? k) (c_needles c) (c_crcs c)
+  && forallb (fun p => crc (fst p) =? snd p) (c_crc_extra c).
 
 (* ---------- model side ---------- *)
 Definition m_file (c : case) : list N :=
@@ -60,45 +93,46 @@ Fixpoint m_appends (v : N) (ns : list needle) (off : N) : list (N * N * N) :=
   | n :: ns' => (off, data_size n, actual_size (body_size n) v) :: m_appends v ns' (off + len (encode v n))
   end.
 
-Fixpoint m_reads (crc : list N -> N) (v : N) (file : list N) (ns : list needle) (off : N) : list (dneedle * N) :=
+Definition rd (v : N) (file : list N) (off size : N) : dneedle * N :=
+  let '(d, s) := read_data crc file off size v in (d, status_code s).
+
+Fixpoint m_reads (v : N) (file : list N) (ns : list needle) (off : N) : list (dneedle * N) :=
   match ns with
   | [] => []
-  | n :: ns' =>
-      let '(d, s) := read_data crc file off (body_size n) v in
-      (d, status_code s) :: m_reads crc v file ns' (off + len (encode v n))
-  end.
-
-Definition flip_at (l : list N) (pos mask : N) : list N :=
-  takeN pos l ++ match dropN pos l with x :: r => N.lxor x mask :: r | [] => [] end.
-
-(* offset of record i *)
-Fixpoint offset_of (v : N) (ns : list needle) (off : N) (i : nat) : N :=
-  match i, ns with
-  | S i', n :: ns' => offset_of v ns' (off + len (encode v n)) i'
-  | _, _ => off
-  end.
-
-(* [mf] = m_file c and [apps] = m_appends ..., computed once per case *)
-Definition m_flip (c : case) (mf : list N) (apps : list (N * N * N)) (f : flip) : N :=
-  let v := c_version c in
-  let i := N.to_nat (f_rec f) in
-  let n := nth i (c_needles c) empty_needle in
-  let orig := crc_of c in
-  let crc' := fun d => if bytes_eqb d (data n) then orig d else f_crc f in
-  let '(off, _, _) := nth i apps (0, 0, 0) in
-  status_code (snd (read_data crc' (flip_at mf (f_pos f) (f_mask f)) off (body_size n) v)).
-
-(* ---------- comparison helpers ---------- *)
-Fixpoint all2 {A B} (f : A -> B -> bool) (l1 : list A) (l2 : list B) : bool :=
-  match l1, l2 with
-  | [], [] => true
-  | x :: l1', y :: l2' => f x y && all2 f l1' l2'
-  | _, _ => false
+  | n :: ns' => rd v file off (body_size n) :: m_reads v file ns' (off + len (encode v n))
   end.
 
 Definition dn_eqb (a b : dneedle * N) : bool := dneedle_eqb (fst a) (fst b) && (snd a =? snd b).
 Definition triple_eqb (a b : N * N * N) : bool :=
   let '(a1, a2, a3) := a in let '(b1, b2, b3) := b in (a1 =? b1) && (a2 =? b2) && (a3 =? b3).
+Definition pair_eqb (a b : N * N) : bool := (fst a =? fst b) && (snd a =? snd b).
+
+(* [mf] = m_file c and [apps] = m_appends ..., computed once per case.  Status AND the CRC of
+   whatever data the damaged record decoded to. *)
+Definition m_flip (c : case) (mf : list N) (apps : list (N * N * N)) (f : flip) : bool :=
+  let v := c_version c in
+  let i := N.to_nat (f_rec f) in
+  let n := nth i (c_needles c) empty_needle in
+  let '(off, _, _) := nth i apps (0, 0, 0) in
+  let '(d, s) := read_data crc (flip_byte mf (f_pos f) (f_mask f)) off (body_size n) v in
+  (status_code s =? f_status f) && (crc (data (d_n d)) =? f_crc f).
+
+Definition damaged (mf : list N) (pos mask : N) : list N :=
+  if mask =? 0 then mf else flip_byte mf pos mask.
+
+Definition m_recopy (c : case) (mf : list N) (r : recopy) : bool :=
+  let v := c_version c in
+  let visits := scan crc v (damaged mf (r_pos r) (r_mask r)) (c_scan_off c) in
+  let dst := r_npre r ++ copy_bytes v visits in
+  let idx := copy_entries v visits (len (r_npre r)) in
+  bytes_eqb dst (r_file r) && all2 pair_eqb idx (r_index r)
+  && all2 dn_eqb (map (fun e => rd v dst (fst e) (snd e)) idx) (r_reads r).
+
+Definition m_tscan (c : case) (mf : list N) (t : tscan) : bool :=
+  all2 dn_eqb (scan crc (c_version c) (takeN (t_len t) mf) (c_scan_off c)) (t_visits t).
+
+Definition m_raw (c : case) (mf : list N) (w : rawread) : bool :=
+  dn_eqb (rd (c_version c) mf (w_off w) (w_size w)) (w_res w).
 
 (* ---------- the property's oracle, on the implementation's observables ---------- *)
 (* the needles the property speaks about: what CreateNeedleFromRequest can produce *)
@@ -121,6 +155,17 @@ Fixpoint p_layout (apps : list (N * N * N)) (off : N) (file_len : N) : bool :=
 Definition p_read (v : N) (n : needle) (r : dneedle * N) : bool :=
   (snd r =? 0) && dneedle_eqb (fst r) (dview v n).
 
+(* per record: (a read of a record WITH payload is wrong, a read of a record WITHOUT payload
+   is wrong); a missing or surplus read counts as the first *)
+Fixpoint read_viol (v : N) (ns : list needle) (rs : list (dneedle * N)) : bool * bool :=
+  match ns, rs with
+  | [], [] => (false, false)
+  | n :: ns', r :: rs' =>
+      let '(a, b) := read_viol v ns' rs' in
+      if p_read v n r then (a, b) else if empty_data n then (a, true) else (true, b)
+  | _, _ => (true, false)
+  end.
+
 (* scan: one visit per record, at the offset Append returned, with the right identity; and the
    written blob when there is a payload *)
 Definition p_visit (v : N) (n : needle) (a : N * N * N) (s : dneedle * N) : bool :=
@@ -135,35 +180,76 @@ Fixpoint all3 {A B C} (f : A -> B -> C -> bool) (l1 : list A) (l2 : list B) (l3 
   | _, _, _ => false
   end.
 
+(* is the byte at [pos] a data byte of record [i] (with payload, non-zero mask)? *)
+Definition in_data (c : case) (i pos mask : N) : bool :=
+  let n := nth (N.to_nat i) (c_needles c) empty_needle in
+  let '(o, _, _) := nth (N.to_nat i) (i_appends c) (0, 0, 0) in
+  let lo := o + 20 in
+  (lo <=? pos) && (pos <? lo + len (data n)) && negb (mask =? 0).
+
 (* a flip inside the data region of its record must be reported as a CRC error *)
 Definition p_flip (c : case) (f : flip) : bool :=
-  let i := N.to_nat (f_rec f) in
-  let n := nth i (c_needles c) empty_needle in
-  let '(o, _, _) := nth i (i_appends c) (0, 0, 0) in
-  let lo := o + 20 in
-  if (lo <=? f_pos f) && (f_pos f <? lo + len (data n)) && negb (f_mask f =? 0)
-  then f_status f =? 2 else true.
+  if in_data c (f_rec f) (f_pos f) (f_mask f) then f_status f =? 2 else true.
+
+(* a scan on a torn file: the records that are completely there are visited as in the whole
+   file, and at most one more visit follows (the torn record, header only) *)
+Definition complete_before (apps : list (N * N * N)) (L : N) : nat :=
+  length (filter (fun a => let '(o, _, sz) := a in o + sz <=? L) apps).
+
+Definition p_tscan (c : case) (t : tscan) : bool :=
+  let k := complete_before (i_appends c) (t_len t) in
+  all2 dn_eqb (firstn k (t_visits t)) (firstn k (i_scan c))
+  && Nat.leb (length (t_visits t)) (S k).
+
+(* a copy of the UNDAMAGED file holds the same records: same bytes after the new prefix, and
+   every record with payload reads back as written *)
+Definition p_copy_clean (c : case) (r : recopy) : bool :=
+  bytes_eqb (r_file r) (r_npre r ++ dropN (c_scan_off c) (i_file c))
+  && (let '(a, _) := read_viol (c_version c) (c_needles c) (r_reads r) in negb a).
+
+(* a copy of a file with an altered data byte must not hand that record back as valid *)
+Definition laundered (c : case) (r : recopy) : bool :=
+  let n := nth (N.to_nat (r_rec r)) (c_needles c) empty_needle in
+  let rd := nth (N.to_nat (r_rec r)) (r_reads r) (empty_dneedle, 1) in
+  (snd rd =? 0) && negb (bytes_eqb (data (d_n (fst rd))) (data n)).
 
 Definition check (c : case) : outcome :=
   let v := c_version c in
-  let crc := crc_of c in
   let mf := m_file c in
   let start := len (c_prefix c) in
   let apps := m_appends v (c_needles c) start in
+  (* outside the property's domain nothing is claimed; neither for the hand-framed files
+     (no needle was written by the writer: correspondence only) *)
+  let claims := forallb in_domain (c_needles c) && negb (match c_needles c with [] => true | _ => false end) in
+  let '(rv_other, rv_empty) := read_viol v (c_needles c) (i_reads c) in
+  let other :=
+        negb (p_layout (i_appends c) start (len (i_file c)))
+        || rv_other
+        || (if c_do_scan c then negb (all3 (p_visit v) (c_needles c) (i_appends c) (i_scan c)) else false)
+        || negb (forallb (p_flip c) (c_flips c))
+        || negb (forallb (p_tscan c) (c_tscans c))
+        || existsb (fun r => (r_mask r =? 0) && negb (p_copy_clean c r)) (c_recopies c) in
+  let k0 := rv_empty in
+  let k1 := existsb (fun r => in_data c (r_rec r) (r_pos r) (r_mask r) && laundered c r) (c_recopies c) in
   {| o_corr :=
-       bytes_eqb mf (i_file c)
+       crc_ok c
+       && bytes_eqb mf (i_file c)
        && all2 triple_eqb apps (i_appends c)
-       && all2 dn_eqb (m_reads crc v mf (c_needles c) start) (i_reads c)
-       && (if c_do_scan c then all2 dn_eqb (scan crc v mf start) (i_scan c) else true)
-       && forallb (fun f => m_flip c mf apps f =? f_status f) (c_flips c);
-     o_prop :=
-       negb (forallb in_domain (c_needles c))     (* outside the property's domain: nothing claimed *)
-       || (p_layout (i_appends c) start (len (i_file c))
-           && all2 (p_read v) (c_needles c) (i_reads c)
-           && all3 (p_visit v) (c_needles c) (i_appends c) (i_scan c)
-           && forallb (p_flip c) (c_flips c));
-     o_trig := if existsb empty_data (c_needles c) then Some 0 else None;
+       && all2 dn_eqb (m_reads v mf (c_needles c) start) (i_reads c)
+       && (if c_do_scan c
+           then all2 dn_eqb (scan crc v mf (c_scan_off c)) (i_scan c)
+                && Bool.eqb (scan_panics v mf (c_scan_off c)) (i_scan_panicked c)
+           else true)
+       && forallb (m_flip c mf apps) (c_flips c)
+       && forallb (m_recopy c mf) (c_recopies c)
+       && forallb (m_tscan c mf) (c_tscans c)
+       && forallb (m_raw c mf) (c_raws c);
+     o_prop := negb claims || negb (other || k0 || k1);
+     (* narrow triggers: a violation that is neither "metadata of an empty payload lost" nor
+        "altered data came back valid from a scan-based copy" is never excused *)
+     o_trig := if other then None else if k0 then Some 0 else if k1 then Some 1 else None;
      o_nontrivial :=
-       existsb (fun r => (snd r =? 0) && negb (empty_data (d_n (fst r)))) (i_reads c) |}.
+       existsb (fun r => (snd r =? 0) && negb (empty_data (d_n (fst r)))) (i_reads c)
+       || existsb (fun w => (snd (w_res w) =? 0) && negb (empty_data (d_n (fst (w_res w))))) (c_raws c) |}.
 
 Definition summarize_cases (l : list case) : summary := summarize check l.
